@@ -50,8 +50,26 @@ class Interp:
             raise SymError("interpolant stub: unexpected call arguments %s" % kw)
         return self._eval(xs, nu, extrapolate)
 
-    def derivative(self, xs, der=1):
+    def derivative(self, *args, **kw):
+        """scipy's two meanings of `derivative`: UnivariateSpline / PPoly classes return the n-th derivative as a new callable,
+        KroghInterpolator / BarycentricInterpolator evaluate the der-th derivative at xs."""
+        if self.kind in ("UnivariateSpline", "InterpolatedUnivariateSpline", "PchipInterpolator", "Akima1DInterpolator", "CubicHermiteSpline", "CubicSpline") \
+                and (not args or numpy.ndim(args[0]) == 0):
+            n = int(args[0]) if args else int(kw.get("n", kw.get("nu", 1)))
+            return Interp(self.kind, self.x, self.y, self.kwargs, nu=self.nu + n, extrapolates=self.extrapolates)
+        xs = args[0]
+        der = args[1] if len(args) > 1 else kw.get("der", 1)
         return self._eval(xs, der)
+
+    def derivatives(self, xs, der=None):
+        """KroghInterpolator.derivatives: rows 0 .. der-1 are the derivatives of that order at xs."""
+        if der is None:
+            raise SymError("interpolant stub: derivatives() without an order is not modelled")
+        rows = [self._eval(xs, k) for k in range(int(der))]
+        out = numpy.empty((int(der),) + numpy.asarray(xs, dtype=object).shape, dtype=object)
+        for k, r in enumerate(rows):
+            out[k] = r
+        return out
 
     def deriv(self, m=1):
         """numpy.poly1d API (scipy.interpolate.lagrange returns a poly1d): the m-th derivative as a callable of the same kind."""
